@@ -543,10 +543,12 @@ func (s *TxStore) ExistsUtxo(tx mwdb.ReadTransaction, out *wire.OutPoint) (flags
 	}
 
 	// unspent exists
-	uspKey, credKey, err := existsUnspent(nsUnspent, s.ksmgr.CurrentKeystore().Name(), out)
+	_, credKey, err := existsUnspent(nsUnspent, s.ksmgr.CurrentKeystore().Name(), out)
 	if err != nil {
 		return nil, err
 	}
+	// bucketUnminedInputs is keyed by the 36-byte outpoint, not by the unspent key
+	opKey := canonicalOutPoint(&out.Hash, out.Index)
 	if credKey != nil {
 		credValue, err := existsRawCredit(nsCredits, credKey)
 		if err != nil {
@@ -579,7 +581,7 @@ func (s *TxStore) ExistsUtxo(tx mwdb.ReadTransaction, out *wire.OutPoint) (flags
 				})
 			return nil, fmt.Errorf("unexpected error")
 		}
-		cred.flags.SpentByUnmined = existsRawUnminedInput(nsUnminedInputs, uspKey) != nil
+		cred.flags.SpentByUnmined = existsRawUnminedInput(nsUnminedInputs, opKey) != nil
 		return &cred.flags, nil
 	}
 
@@ -607,7 +609,7 @@ func (s *TxStore) ExistsUtxo(tx mwdb.ReadTransaction, out *wire.OutPoint) (flags
 					})
 				return nil, fmt.Errorf("unexpected error")
 			}
-			cred.flags.SpentByUnmined = existsRawUnminedInput(nsUnminedInputs, uspKey) != nil
+			cred.flags.SpentByUnmined = existsRawUnminedInput(nsUnminedInputs, opKey) != nil
 			return &cred.flags, nil
 		}
 	}
@@ -638,7 +640,7 @@ func (s *TxStore) ExistsUtxo(tx mwdb.ReadTransaction, out *wire.OutPoint) (flags
 						})
 					return nil, fmt.Errorf("unexpected error")
 				}
-				cred.flags.SpentByUnmined = existsRawUnminedInput(nsUnminedInputs, uspKey) != nil
+				cred.flags.SpentByUnmined = existsRawUnminedInput(nsUnminedInputs, opKey) != nil
 				cred.flags.IsUnmined = true
 				return &cred.flags, nil
 			}
